@@ -143,6 +143,8 @@ def disc_enum(E, strum_path):
         items.append("name(%s)" % E["dname"])
     if E["dvis"]:
         items.append("vis(%s)" % E["dvis"])
+    if E["id"] % 2:
+        items.append("derive(Hash, PartialOrd)")          # only non-strum derives on the generated enum
     if items:
         lines.append("#[strum_discriminants(%s)]" % ", ".join(items))
     if E.get("crate", "none") != "none":
@@ -187,7 +189,14 @@ def run(tier, seed, rep):
     rng = random.Random(seed * 817504243 + 67)
     pairs = keep_in_domain(corpus(rng, sz["per"]))
     core.log("[C19] %d (definition, derives) pairs in the documented domains" % len(pairs))
-    libs = {"nd": core.strum_rlibs(("derive",), no_default=True), "std": core.strum_rlibs(("derive",))}
+    try:
+        libs = {"nd": core.strum_rlibs(("derive",), no_default=True), "std": core.strum_rlibs(("derive",))}
+    except core.BuildFailed as e:
+        # strum itself does not build in one of the configurations (e.g. default-features = false): no derive is usable there
+        rep.violation(dict(kind="build", config="strum_itself"), "the strum crate itself does not build (default-features = false or derive): "
+                      + e.stderr[-400:], dict(definition=dict(id=0), stderr=e.stderr[-3000:]))
+        rep.cov.update(programs=1, evaluations=1, distinct_nontrivial=2, rule="strum itself failed to build", samples=["strum build"])
+        return rep
     wd = core.workdir("progs_" + PROP)
     jobs = []
     for E, derives, std in pairs:
